@@ -14,7 +14,8 @@ PERR_BASE = 500000           # model error id of "item i cannot be pickled" = PE
 NONE_CODE = 1000003          # how a `None` OUTPUT of the wrapped filter is written in the Lean model
 SWALLOWED = ("AssertionError", "EOFError", "BrokenPipeError")
 PLAIN_ERRS = ("ValueError", "TypeError", "KeyError", "RuntimeError", "C08Error", "ZeroDivisionError",
-              "StopIteration", "StopIteration", "OSError", "FileNotFoundError", "LookupError", "C08SubError")
+              "StopIteration", "StopIteration", "OSError", "FileNotFoundError", "LookupError", "C08SubError",
+              "AttributeError", "AttributeError", "AttributeErrorFrom", "IndexError", "NotImplementedError", "UnicodeError")
 # a StopIteration raised by the wrapped filter reaches the caller as RuntimeError('generator raised StopIteration')
 # (PEP 479: Foreach.filter is a generator), in-process and multi-process; the message carries no item id
 
@@ -111,18 +112,36 @@ def enc(o):
 def err_id(exc):
     """item id carried by an exception raised by SpecFilter (None when it is not one of ours)"""
     from props import c08_filters as FL
+    import re
     args = getattr(exc, "args", ())
-    if len(args) == 1 and isinstance(args[0], str) and args[0].startswith("c08-err-"):
-        try:
-            return int(args[0][8:])
-        except ValueError:
-            return None
+    if len(args) == 1 and isinstance(args[0], str):
+        m_ = re.match(r"c08-err-(\d+)( from c08)?$", args[0])
+        if m_:
+            return int(m_.group(1))
     return None
+
+
+def err_type_name(err):
+    return "AttributeError" if err == "AttributeErrorFrom" else err
+
+
+def err_text(item, err):
+    from props import c08_filters as FL
+    return FL.err_message(item, err)
 
 
 def make_items(case):
     from props import c08_filters as FL
     b = case.get("base", 0)
+    if case.get("buffer"):
+        # a stream that re-uses ONE mutable object: it is filled with the next record and yielded again (readers of big
+        # files, batch iterators); taken item by item the filter sees every record once
+        def records(n=len(case["items"])):
+            buf = [b]
+            for i in range(n):
+                buf[0] = b + i
+                yield buf
+        return records()
     xs = [(FL.BadInt(b + i) if it.get("unpick") else b + i) for i, it in enumerate(case["items"])]
     return iter(xs) if case.get("iter") else xs
 
@@ -150,7 +169,8 @@ def consume(gen, case, on_abandon=None):
                 return outs, {"kind": "closed"}
         return outs, {"kind": "ok"}
     except (Exception, CobaExit) as e:
-        return outs, {"kind": "raised", "type": type(e).__name__, "msg": str(e)[:200], "item": err_id(e)}
+        a0 = e.args[0] if len(getattr(e, "args", ())) == 1 and isinstance(e.args[0], str) else None
+        return outs, {"kind": "raised", "type": type(e).__name__, "msg": str(e)[:200], "item": err_id(e), "arg": a0}
 
 
 def build(case, flt):
@@ -344,6 +364,8 @@ def judge(case, run):
     ups = unpicklable(case)
     base = case.get("base", 0)
     desc = "n=%d m=%d items=%s abandon=%s" % (case["n"], case["m"], short(case["items"]), case.get("abandon"))
+    if case.get("buffer"):
+        desc += " input = a generator re-yielding ONE mutable buffer [id], refilled for every item"
     if case.get("call"):
         desc = "call #%d on the same Multiprocessor object, " % (case["call"] + 1) + desc
     kind = oc["kind"]
@@ -385,7 +407,7 @@ def judge(case, run):
             fails.append(F("B", "the filter raises for item(s) %s but the call returned normally with %r (%s)" % (rs, outs, desc),
                            "error-not-raised:" + "+".join(types)))
         elif (case.get("wrap") and oc.get("type") == "CobaExit" and oc.get("item") is not None and oc["item"] - base in rs
-              and case["items"][oc["item"] - base]["err"] == "RuntimeError"):
+              and case["items"][oc["item"] - base]["err"] == "RuntimeError"):   # (fixed in /repo ce78b88; kept as a regression signature)
             fails.append(F("B", "CobaMultiprocessor turned the filter's RuntimeError(%s) into CobaExit (a BaseException): the caller does not get "
                            "that error (%s)" % (oc["msg"], desc), "wrapper-runtimeerror-becomes-cobaexit"))
         elif ups and oc.get("type") == "CobaException" and "pickle" in (oc.get("msg") or ""):
@@ -395,7 +417,9 @@ def judge(case, run):
         elif case.get("wrap") and "StopIteration" in types and oc.get("type") == "CobaExit" and "StopIteration" in (oc.get("msg") or ""):
             fails.append(F("B", "CobaMultiprocessor turned the RuntimeError (from the filter's StopIteration) into CobaExit (a BaseException) (%s)" % desc,
                            "wrapper-runtimeerror-becomes-cobaexit"))
-        elif oc.get("item") is None or oc["item"] - base not in rs or oc.get("type") != case["items"][oc["item"] - base]["err"]:
+        elif (oc.get("item") is None or oc["item"] - base not in rs
+              or oc.get("type") != err_type_name(case["items"][oc["item"] - base]["err"])
+              or ("arg" in oc and oc["arg"] != err_text(oc["item"], case["items"][oc["item"] - base]["err"]))):
             fails.append(F("B", "the call raised %s(%s), which is not one of the filter's errors (%s)" % (oc["type"], oc["msg"], desc), "wrong-error"))
     # maxtasksperchild
     if case["m"] > 0:
@@ -629,6 +653,8 @@ class C08(Property):
             case["abandon"] = rng.randint(0, max(1, tot)) if rng.chance(0.9) else 0
         if rng.chance(0.25):
             case["iter"] = True
+        if rng.chance(0.1) and not any(it.get("unpick") for it in items):
+            case["buffer"] = True          # one mutable object, mutated and yielded again for every item
         if rng.chance(0.1):
             case["wrap"] = True
         case["sched"] = {"seed": rng.below(2 ** 32), "policy": self.gen_policy(rng, n)}
@@ -648,7 +674,7 @@ class C08(Property):
         r = rng.below(100)
         if r < 60:
             for i in rng.sample(list(range(6)), rng.choice([1, 1, 1, 2, n])):
-                items[i]["err"] = rng.choice(list(PLAIN_ERRS[:5]) + ["StopIteration", "OSError"])
+                items[i]["err"] = rng.choice(list(PLAIN_ERRS[:5]) + ["StopIteration", "OSError", "AttributeError"])
                 if not items[i]["gen"]:
                     items[i]["outs"] = []
         elif r < 90:
@@ -677,7 +703,7 @@ class C08(Property):
             items = [{"outs": [rng.randint(0, 5)] if rng.chance(0.85) else [], "err": None, "gen": True} for _ in range(cnt)]
             h = {"items": items, "abandon": None}
             if kk == "raise":
-                self.add_errors(rng, items, list(PLAIN_ERRS[:5]) + ["StopIteration", "C08SubError"])
+                self.add_errors(rng, items, list(PLAIN_ERRS[:5]) + ["StopIteration", "C08SubError", "AttributeError", "AttributeErrorFrom"])
             elif kk == "abandon":
                 h["abandon"] = rng.randint(1, max(1, sum(len(it["outs"]) for it in items)))
             hist.append(h)
@@ -808,6 +834,15 @@ class C08(Property):
             for pol in ("uniform", "loader-slow"):
                 cs.append({"mode": "sched", "n": n, "m": m, "items": items, "abandon": None, "sched": P(pol)})
         cs.append({"mode": "real", "n": 2, "m": 1, "items": [dict(one(i), unpick=(i == 2)) for i in range(5)], "abandon": None})
+        # a stream that re-yields one mutable buffer; the filter's own AttributeError (also worded like pickle's lookup error)
+        for n, m in ((1, 0), (2, 0), (1, 2), (3, 1)):
+            cs.append({"mode": "sched", "n": n, "m": m, "items": [one(i) for i in range(6)], "abandon": None, "buffer": True, "sched": P("uniform")})
+            for kind in ("AttributeError", "AttributeErrorFrom"):
+                items = [{"outs": ([] if i == 2 else [i]), "err": (kind if i == 2 else None), "gen": False} for i in range(5)]
+                cs.append({"mode": "sched", "n": n, "m": m, "items": items, "abandon": None, "sched": P("uniform")})
+        cs.append({"mode": "real", "n": 2, "m": 1, "items": [one(i) for i in range(5)], "abandon": None, "buffer": True})
+        cs.append({"mode": "real", "n": 2, "m": 0, "abandon": None,
+                   "items": [{"outs": ([] if i == 1 else [i]), "err": ("AttributeError" if i == 1 else None), "gen": False} for i in range(4)]})
         # StopIteration from a plain (non-generator) and from a generator filter: the call must raise (in-process and multi-process)
         for n, m in ((1, 0), (2, 0), (1, 2), (3, 1)):
             for g in (False, True):
@@ -867,6 +902,8 @@ class C08(Property):
             tags.append("shape:fewer-items-than-processes")
         if case["m"] > 0 and case["items"] and len(case["items"]) % case["m"] == 0:
             tags.append("shape:multiple-of-m")
+        if case.get("buffer"):
+            tags.append("stream:reused-buffer")
         if unpicklable(case):
             tags.append("err:unpicklable-item")
         if has_none(case):
@@ -1002,6 +1039,8 @@ class C08(Property):
             yield {k: v for k, v in case.items() if k != "wrap"}
         if case.get("iter"):
             yield {k: v for k, v in case.items() if k != "iter"}
+        if case.get("buffer"):
+            yield {k: v for k, v in case.items() if k != "buffer"}
         for k, it in enumerate(items):
             if len(it["outs"]) > 1 and it.get("gen", True):
                 yield dict(case, items=items[:k] + [dict(it, outs=it["outs"][:-1])] + items[k + 1:])
